@@ -184,7 +184,8 @@ def tree(ctx, bt, btkey):
     name_terms(U_sel=U)
     cand = [T.ite(s1, T.ite(sel, R2(k), T.proj(R1, k)), T.proj(R1, k)) for k in (6, 7, 8)]
     f6 = recu[6]
-    found_sel = f6[2][1] if f6[0] == 'ite' and f6[1] is s1 and f6[2][0] == 'ite' else None
+    g6 = guarded_by(f6, s1)
+    found_sel = g6[0] if g6 is not None and g6[0] is not T.TRUE else None
     ctx.eq('C03.r.select_prob', A, 'rec.select', found_sel if found_sel is not None else f6, sel, sp=sp,
            why='the new subtree\'s candidate replaces the old one with probability n\'\'/max(n\'+n\'\',1): uniform selection among admissible points; U a fresh uniform from the chain generator after both subtrees')
     ctx.eq('C03.r.select_triple', A, 'rec.candidate', T.tup(recu[6], recu[7], recu[8]), T.tup(*cand), sp=sp,
